@@ -3,12 +3,14 @@
 (* Trace validation for C61 (Rotosolve / Rotoselect).  One trace = one     *)
 (* optimizer driven through a few step / step_and_cost calls on the real   *)
 (* code; per call the harness records the returned parameters as lattice   *)
-(* integers (units of pi/16; `on` says whether the float was on the        *)
-(* lattice), the returned generators (Rotoselect), the returned cost and   *)
-(* the sub-step minima of full_output (Rotosolve), as integers.            *)
+(* integers (parameter d in units of pi/(12 fn[d]), fn/fd its frequency;   *)
+(* `on` says whether the float was on the lattice), the returned           *)
+(* generators (Rotoselect), and 4 x the returned cost and 4 x the sub-step *)
+(* minima of full_output (Rotosolve), as integers (Roto!F is 4 F).         *)
 (* The sweep is re-played with the IMPLEMENTATION's own choices and every  *)
 (* sub-step is decided declaratively (Roto.tla):                           *)
-(*   not-a-minimum            sin(fq*theta + ph) # -sign(a)                *)
+(*   not-a-minimum            sin(fq*theta + ph) # -sign(a)  (any rational *)
+(*                            fq: compared modulo the period 2 pi / fq)    *)
 (*   not-the-best-generator   another generator reaches a lower minimum    *)
 (*   frozen / off-lattice     a non-trainable entry moved / theta is not   *)
 (*                            a lattice angle (every exact minimum is)     *)
@@ -49,7 +51,7 @@ SubCheck(acc, dd, ob) ==
             IF a = 0 THEN [acc EXCEPT !.bad = "degenerate-input"]
             ELSE IF ~Minimiser(PR, g, dd, a, ob.x[dd]) THEN [acc EXCEPT !.bad = "not-a-minimum"]
             ELSE IF SubMinVal(PR, acc.S, acc.gen, g, dd) # BestVal(PR, acc.S, acc.gen, dd) THEN [acc EXCEPT !.bad = "not-the-best-generator"]
-            ELSE LET nS == [acc.S EXCEPT ![dd] = -Sgn(a)]
+            ELSE LET nS == [acc.S EXCEPT ![dd] = -2 * Sgn(a)]
                      ng == [acc.gen EXCEPT ![dd] = g]
                  IN [S |-> nS, gen |-> ng, bad |-> "", ys |-> Append(acc.ys, F(PR, nS, ng)),
                      drift |-> acc.drift \/ ob.x[dd] # Representative(PR, g, dd, a, x[dd]) \/ g # PickGen(PR, acc.S, acc.gen, dd)]
